@@ -252,7 +252,7 @@ pub fn check_inproc(case: &Case) -> Result<Outcome, String> {
             if *rcdom {
                 run_html(RcDom::default(), cfg, ch, |d| use_rcdom(d, true))
             } else {
-                let o = run_html(ModelDom::new(), cfg, ch, |d| {
+                let o = run_html(ModelDom::for_cfg(cfg), cfg, ch, |d| {
                     // contract-abiding sink precondition: the sink saw no contract violation
                     drop(d);
                 })?;
